@@ -64,6 +64,9 @@ pub struct SchedReader {
     pub fault_msg: String,
     /// Violates the Read contract: report this many bytes more than the buffer holds.
     pub over_report: Option<usize>,
+    /// over-report only from this read call on (0-based)
+    pub over_from_read: usize,
+    reads: usize,
     log: Log,
 }
 
@@ -80,6 +83,8 @@ impl SchedReader {
             fault_kind: io::ErrorKind::Other,
             fault_msg: READ_FAULT_MSG.to_owned(),
             over_report: None,
+            over_from_read: 0,
+            reads: 0,
             log,
         }
     }
@@ -128,8 +133,11 @@ impl Read for SchedReader {
         buf[..n].copy_from_slice(&self.data[self.pos..self.pos + n]);
         self.pos += n;
         self.log.borrow_mut().push(IoEvent::Read { req: buf.len(), got: n as i64, pos: self.pos });
+        self.reads += 1;
         if let Some(extra) = self.over_report {
-            return Ok(buf.len() + extra);
+            if self.reads > self.over_from_read {
+                return Ok(buf.len() + extra);
+            }
         }
         Ok(n)
     }
